@@ -62,7 +62,7 @@ def gen_cases(seed, tier):
         # make sure every op kind is reached regardless of seed
         ops.insert(0, dict(op=common.stratum(i, 2, OPS), a=float(rng.random()), b=float(rng.random())))
         cases.append(dict(start=start, asc=bool(common.stratum(i, 3, 2)), fchans=fchans, tchans=tchans, df=df, dt=dt, fch1=fch1,
-                          ops=ops, name=str(common.pick(rng, ['Synthetic', 'VOYAGER-1', 'TIC 141146667 b', 'x', 'A_long_source_name_0123456789'])),
+                          ops=ops, name=str(common.pick(rng, ['Synthetic', 'VOYAGER-1', 'TIC 141146667 b', 'x', 'A_long_source_name_0123456789', '', ''])),
                           mjd=float(58000 + rng.uniform(0, 3000)), helper=bool(common.stratum(i, 4, 10) == 0), sub=int(rng.integers(2 ** 31))))
     return cases
 
